@@ -7,8 +7,9 @@
 (* local work between two points belongs to the step that starts at the earlier point.     *)
 (* The pool is abstract: a package handed to it sits in a tier (central queue with the     *)
 (* producer token it was enqueued with, per-thread ring i, steal ring); workers take from  *)
-(* every tier they poll, task-set waiters only from the central queue and the rings below  *)
-(* numRings_ (TaskSet additionally drains its own token first); the pool's own inline      *)
+(* every tier they poll, task-set waiters from the central queue, the rings below          *)
+(* numRings_ and (since /repo fix 2c204f8) the steal rings (TaskSet additionally drains    *)
+(* its own token first); the pool's own inline                                             *)
 (* decisions (shouldRunInline, forceEnqueue on a 0-thread pool) are functions of           *)
 (* workRemaining_/numThreads_/poolLoadFactor_ exactly as in thread_pool.h.                 *)
 (*                                                                                         *)
@@ -155,7 +156,7 @@ BeginBody(w, t, k, s, wrap, chk, fromq) ==
 TierOK(w, t, k, role) ==
   LET tr == w.S.tier[k] IN
   CASE role = "worker" -> tr[1] \in {"c", "s"} \/ (tr[1] = "r" /\ tr[2] = WIdx(t) /\ WIdx(t) < w.S.nt)
-    [] role = "waiter" -> tr[1] = "c" \/ (tr[1] = "r" /\ tr[2] < w.S.nr)
+    [] role = "waiter" -> tr[1] \in {"c", "s"} \/ (tr[1] = "r" /\ tr[2] < w.S.nr)   \* (steal rings: since /repo fix 2c204f8)
     [] role = "tok" -> tr[1] = "c" /\ tr[2] = Top(w, t).s /\ tr[2] # 0
     [] OTHER -> FALSE
 PendElsewhere(w, t, k) ==
@@ -182,6 +183,14 @@ TakeFor(w, t, k) ==
     LET f == Top(w, t) IN
     CASE f.pc \in {"PoInline", "PoAny"} /\ f.pend # <<>> /\ Head(f.pend) = k ->
            [ok |-> TRUE, w |-> SetTop(w, t, AfterInline(f)), fromq |-> FALSE]
+      [] f.pc = "PoAny" /\ Trace(w) /\ k \in Range(f.pend) ->
+           \* (trace) scheduleBulkPlaced enqueued the packages before k (not visible as task-set events) and runs k inline
+           LET idx == CHOOSE i \in 1 .. Len(f.pend) : f.pend[i] = k
+               before == {f.pend[i] : i \in 1 .. (idx - 1)}
+               rest == SubSeq(f.pend, idx + 1, Len(f.pend))
+               w1 == [w EXCEPT !.S.tier = [j \in DOMAIN @ |-> IF j \in before THEN <<"q", 0>> ELSE @[j]],
+                               !.G.st = [j \in DOMAIN @ |-> IF j \in before THEN "q" ELSE @[j]]]
+           IN [ok |-> TRUE, w |-> SetTop(w1, t, [f EXCEPT !.pend = rest, !.pc = IF rest = <<>> THEN f.cont ELSE f.pc]), fromq |-> FALSE]
       [] f.pc = "PoEnq" /\ Trace(w) /\ f.pend # <<>> /\ Head(f.pend) = k ->
            \* the pool ran on the caller a package it had to queue: recorded, judged by the invariants
            [ok |-> TRUE, w |-> Bad(SetTop(w, t, AfterInline(f)), IF f.fqop THEN "ForceQueuedRanInline" ELSE "QueuedRanInline"),
